@@ -173,6 +173,9 @@ def _tree_form(ctx, case, spec):
         ctx.count("sorted_under_custom_column_names")
         if r:
             return ctx.violation("custom-column-names", f"sort_tree: {r}", case)
+        r = G.same_under_ambient(lambda: sort_tree(tree), pick=case["tseed"])
+        if r:
+            return ctx.violation("ambient-state", f"sort_tree: {r}", case)
     # the two-step use of the exported worker: the (new ids, new parents, row index) of this
     # topology are kept while another topology of the same size is sorted, and are applied afterwards
     if len(out.id()) >= 2:
